@@ -13,8 +13,9 @@ import (
 )
 
 type Decision struct {
-	Taken bool
-	Val   uint64 // for concretisation decisions: the value tested
+	Implied bool // follows from earlier decisions: no query, nothing asserted
+	Taken   bool
+	Val     uint64 // for concretisation decisions: the value tested
 }
 
 type workItem struct {
@@ -53,35 +54,35 @@ type NondetVal struct {
 
 // Explorer holds the shared state of one job's exploration.
 type Explorer struct {
-	prog      *ssa.Program
-	entry     *ssa.Function
-	args      []value
-	opts      ExploreOpts
-	mu        sync.Mutex
+	prog        *ssa.Program
+	entry       *ssa.Function
+	args        []value
+	opts        ExploreOpts
+	mu          sync.Mutex
 	wg          sync.WaitGroup
 	workers     int
 	idleSpawned int
 	nextWid     int
 	parked      []*Machine
 	incomplete  string
-	work      []workItem
-	active    int
-	stopped   bool
-	outcomes  []Outcome // fails, panics, unsupported, budget (bounded)
-	counts    map[string]int64
-	reach     map[string]int64
-	funcs     map[*ssa.Function]bool
-	paths     int64
-	decisions int64
-	steps     int64
-	maxSteps  int64
-	solver    SolverStats
-	unknowns  int64
-	samples   []Outcome
-	globalW   map[string]int64
-	frozenW   map[string]int64
-	stubs     map[string]int64
-	lastRet   int64
+	work        []workItem
+	active      int
+	stopped     bool
+	outcomes    []Outcome // fails, panics, unsupported, budget (bounded)
+	counts      map[string]int64
+	reach       map[string]int64
+	funcs       map[*ssa.Function]bool
+	paths       int64
+	decisions   int64
+	steps       int64
+	maxSteps    int64
+	solver      SolverStats
+	unknowns    int64
+	samples     []Outcome
+	globalW     map[string]int64
+	frozenW     map[string]int64
+	stubs       map[string]int64
+	lastRet     int64
 }
 
 type ExploreOpts struct {
@@ -132,8 +133,8 @@ type Machine struct {
 	stubCalls     map[string]int64
 	pathUnknown   bool
 	pcCount       int
-	decided       map[*Term]bool
-	concVals      map[*Term]uint64
+	decided       map[[2]uint64]bool
+	concVals      map[[2]uint64]uint64
 	exited        bool
 	curFrame      *frame
 	inMain        bool
@@ -217,38 +218,64 @@ func (m *Machine) branch(c *Term, fr *frame) bool {
 	return m.decide(c, 0)
 }
 
+// decide returns the truth value of a symbolic condition on this path.
+//
+// The decision log must be a function of the program execution alone: every call appends exactly one
+// entry, also when the answer follows from earlier decisions (entry marked Implied, no query). A
+// replayed prefix is followed entry by entry; caches keyed by term identity are only consulted beyond
+// the prefix, because term identity depends on the state of the hash-consing table, which is shared by
+// concurrently running jobs and therefore not reproducible.
 func (m *Machine) decide(c *Term, val uint64) bool {
-	// consequences of earlier decisions on this path need neither a query nor a log entry
-	if v, ok := m.decided[c]; ok {
-		return v
-	}
-	if c.op == opNot {
-		if v, ok := m.decided[c.args[0]]; ok {
-			return !v
-		}
-	}
-	r := m.decide1(c, val)
-	if c.op == opNot {
-		m.decided[c.args[0]] = !r
-	} else {
-		m.decided[c] = r
-	}
-	return r
-}
-
-func (m *Machine) decide1(c *Term, val uint64) bool {
 	k := len(m.decisions)
 	if k < len(m.prefix) {
 		d := m.prefix[k]
 		m.decisions = append(m.decisions, d)
-		if d.Taken {
-			m.sol.Assert(c)
-		} else {
-			m.sol.Assert(mkNot(c))
+		if !d.Implied {
+			if d.Taken {
+				m.sol.Assert(c)
+			} else {
+				m.sol.Assert(mkNot(c))
+			}
+			m.pcCount++
 		}
-		m.pcCount++
+		m.remember(c, d.Taken)
 		return d.Taken
 	}
+	if v, ok := m.lookupDecided(c); ok {
+		m.decisions = append(m.decisions, Decision{Taken: v, Val: val, Implied: true})
+		return v
+	}
+	r := m.decide1(c, val)
+	m.remember(c, r)
+	return r
+}
+
+func (m *Machine) lookupDecided(c *Term) (bool, bool) {
+	if v, ok := m.decided[[2]uint64{c.h1, c.h2}]; ok {
+		return v, true
+	}
+	if c.op == opNot {
+		a := c.args[0]
+		if v, ok := m.decided[[2]uint64{a.h1, a.h2}]; ok {
+			return !v, true
+		}
+	}
+	return false, false
+}
+
+func (m *Machine) remember(c *Term, r bool) {
+	if c.op == opNot {
+		a := c.args[0]
+		m.decided[[2]uint64{a.h1, a.h2}] = !r
+	} else {
+		m.decided[[2]uint64{c.h1, c.h2}] = r
+	}
+}
+
+// decide1 takes a real decision beyond the replayed prefix: one solver query for the side the current
+// model does not take.
+func (m *Machine) decide1(c *Term, val uint64) bool {
+	k := len(m.decisions)
 	side := evalTerm(c, m.model) == 1
 	var other *Term
 	if side {
@@ -288,9 +315,6 @@ func (m *Machine) concretize(t *Term, fr *frame) uint64 {
 	if t.isConst() {
 		return t.c
 	}
-	if v, ok := m.concVals[t]; ok {
-		return v
-	}
 	for i := 0; ; i++ {
 		if i > 4096 {
 			panic(pathEnd{kind: "unsupported", msg: "concretisation of an unbounded term at " + fr.pos()})
@@ -299,14 +323,14 @@ func (m *Machine) concretize(t *Term, fr *frame) uint64 {
 		var v uint64
 		if k < len(m.prefix) {
 			v = m.prefix[k].Val
+		} else if cv, ok := m.concVals[[2]uint64{t.h1, t.h2}]; ok {
+			m.decisions = append(m.decisions, Decision{Taken: true, Val: cv, Implied: true})
+			return cv
 		} else {
 			v = evalTerm(t, m.model)
 		}
-		c := mkEq(t, mkConst(t.w, v))
-		r := m.decide1(c, v)
-		m.decided[c] = r
-		if r {
-			m.concVals[t] = v
+		if m.decide(mkEq(t, mkConst(t.w, v)), v) {
+			m.concVals[[2]uint64{t.h1, t.h2}] = v
 			return v
 		}
 	}
@@ -320,27 +344,30 @@ func (m *Machine) assume(c *Term, fr *frame) {
 		return
 	}
 	// An assumption is a branch whose false side is discarded.
-	if v, ok := m.decided[c]; ok {
+	k := len(m.decisions)
+	if k < len(m.prefix) {
+		d := m.prefix[k]
+		m.decisions = append(m.decisions, d)
+		if !d.Taken {
+			panic(pathEnd{kind: "assume", msg: "assumption false"})
+		}
+		if !d.Implied {
+			m.sol.Assert(c)
+		}
+		m.remember(c, true)
+		return
+	}
+	if v, ok := m.lookupDecided(c); ok {
+		m.decisions = append(m.decisions, Decision{Taken: v, Implied: true})
 		if !v {
 			panic(pathEnd{kind: "assume", msg: "assumption false"})
 		}
 		return
 	}
-	defer func() {
-		if recover_ := recover(); recover_ != nil {
-			panic(recover_)
-		}
-		m.decided[c] = true
-	}()
-	k := len(m.decisions)
-	if k < len(m.prefix) {
-		m.decisions = append(m.decisions, m.prefix[k])
-		m.sol.Assert(c)
-		return
-	}
 	if evalTerm(c, m.model) == 1 {
 		m.decisions = append(m.decisions, Decision{Taken: true})
 		m.sol.Assert(c)
+		m.remember(c, true)
 		return
 	}
 	res, mod := m.sol.CheckWith(c)
@@ -354,7 +381,9 @@ func (m *Machine) assume(c *Term, fr *frame) {
 		m.model = mod
 		m.decisions = append(m.decisions, Decision{Taken: true})
 		m.sol.Assert(c)
+		m.remember(c, true)
 	case Unsat:
+		m.decisions = append(m.decisions, Decision{Taken: false})
 		panic(pathEnd{kind: "assume", msg: "assumption infeasible"})
 	default:
 		m.pathUnknown = true
@@ -462,6 +491,19 @@ func (ex *Explorer) worker(wid int) {
 		out := m.runPath(item)
 		ex.record(m, out)
 		if m.sol.broken {
+			if m.sol.timedOut {
+				// a query exceeded the hard limit: count it as unknown and continue with a fresh solver
+				atomic.AddInt64(&ex.unknowns, 1)
+				old := m.sol
+				old.Close()
+				ns, err := NewSolver(old.kind, old.timeoutMs)
+				if err == nil {
+					ns.log = old.log
+					m.sol = ns
+					ex.maybeSpawn()
+					continue
+				}
+			}
 			ex.mu.Lock()
 			ex.incomplete = "solver process died"
 			ex.stopped = true
@@ -507,6 +549,9 @@ func Explore(prog *ssa.Program, entry *ssa.Function, args []value, opts ExploreO
 		ex.opts.Workers = 16
 	}
 	start := time.Now()
+	if !opts.Deadline.IsZero() && start.After(opts.Deadline) {
+		return &ExploreResult{Counts: map[string]int64{}, Reach: map[string]int64{}, Incomplete: "deadline reached before the job started"}
+	}
 	// the first worker is started with a blocking token acquisition so that every job makes progress
 	<-cpuTokens
 	ex.mu.Lock()
@@ -664,8 +709,8 @@ func (m *Machine) resetPathState() {
 	m.stubCalls = map[string]int64{}
 	m.pathUnknown = false
 	m.pcCount = 0
-	m.decided = map[*Term]bool{}
-	m.concVals = map[*Term]uint64{}
+	m.decided = map[[2]uint64]bool{}
+	m.concVals = map[[2]uint64]uint64{}
 	m.exited = false
 	m.curFrame = nil
 	m.inMain = false
